@@ -83,10 +83,11 @@ def gate_table(rng):
     add(("qcow2.extl2-small-subcluster", [9, 10, 11, 12, 13]))
     add(("qcow2.crypt_method", [1, 2, 3, 255, 1 << 16, (1 << 32) - 1]))
     add(("qcow2.zstd-without-module", [1]))
-    add(("qcow2.data-file-missing", [0]))
+    add(("qcow2.data-file-missing", ["named", "unnamed"]))
     add(("qcow2.backing-file-missing", [0]))
     add(("vhdx.fileid", [("bit", b) for b in range(64)]))
     add(("vhdx.head", [("bit", b) for b in range(32)]))
+    add(("vhdx.head-active-only", [(w, b) for w in (1, 2, "tie") for b in range(0, 32, 3)]))
     add(("vhdx.regi", [("bit", b) for b in range(32)]))
     add(("vhdx.metadata", [("bit", b) for b in range(64)]))
     add(("vhdx.missing-region", ["bat", "metadata"]))
@@ -99,6 +100,7 @@ def gate_table(rng):
         add((f"vmdk.{kind}.magic", [("bit", b) for b in range(64 if kind == "sesparse" else 32)]))
         add((f"vmdk.{kind}.magic-via-descriptor", [("bit", b) for b in range(0, 32, 3)]))
     add(("hyperv.header-signature", [("bit", b) for b in range(32)]))
+    add(("hyperv.active-header-signature-only", [(w, b) for w in (1, 2, "tie") for b in range(32)]))
     add(("hyperv.version", version_values(rng, {0x400})))
     add(("hyperv.replay-signature", [("bit", b) for b in range(32)]))
     add(("hyperv.objtable-signature", [("bit", b) for b in range(32)]))
@@ -122,11 +124,20 @@ def gate_table(rng):
     return g
 
 
+# gates whose positive control depends on the variant (which header copy is active, named/unnamed data file)
+CONTROL_VALUES = {
+    "vhdx.head-active-only": [(1, 0), (2, 0), ("tie", 0)],
+    "hyperv.active-header-signature-only": [(1, 0), (2, 0), ("tie", 0)],
+    "qcow2.data-file-missing": ["named", "unnamed"],
+}
+
+
 def plan(tier: str, seed: int) -> list[dict]:
     rng = rng_for(seed, ID, "gates")
     cases = []
     for name, values in gate_table(rng):
-        cases.append({"gate": name, "vi": -1})  # positive control
+        for j in range(len(CONTROL_VALUES.get(name, [None]))):
+            cases.append({"gate": name, "vi": -1 - j})  # positive control(s)
         vals = list(range(len(values)))
         if tier == "quick" and len(vals) > 120:
             vals = sorted(rng.sample(vals, 120))
@@ -146,7 +157,7 @@ def run(case: dict, ctx) -> dict:
     table = dict(gate_table(rng))
     gate = case["gate"]
     control = case["vi"] < 0
-    value = None if control else table[gate][case["vi"]]
+    value = CONTROL_VALUES.get(gate, [None])[-1 - case["vi"]] if control else table[gate][case["vi"]]
     r2 = rng_for(ctx.seed, ID, gate, case["vi"])
     o = _apply(gate, value, control, ctx, r2)
     if control:
@@ -205,7 +216,8 @@ def _apply(gate: str, value, control: bool, ctx, rng):
                 raw[104] = 1
         elif what == "data-file-missing":
             view = wq.make_view(rng, size=4 * 512, cluster_bits=9, kinds="NNNN", extl2=False, tag=1)
-            img, dataf, _ = wq.build(rng, cluster_bits=9, size=4 * 512, views=[view], external_data=True, data_file_name=b"d.raw", placement="seq")
+            img, dataf, _ = wq.build(rng, cluster_bits=9, size=4 * 512, views=[view], external_data=True,
+                                   data_file_name=b"d.raw" if value == "named" else None, placement="seq")
             raw = bytearray(img.to_bytes())
             data_file = as_handle(dataf.to_bytes()) if control else None
             backing = None
@@ -223,6 +235,13 @@ def _apply(gate: str, value, control: bool, ctx, rng):
         elif what == "head" and not control:
             _flip(raw, 0x10000, value[1])
             _flip(raw, 0x20000, value[1])
+        elif what == "head-active-only":
+            # only the copy the reader must use (higher sequence number, second on a tie) carries the wrong signature
+            s1, s2 = {1: (9, 4), 2: (4, 9), "tie": (6, 6)}[value[0]]
+            struct.pack_into("<Q", raw, 0x10000 + 8, s1)
+            struct.pack_into("<Q", raw, 0x20000 + 8, s2)
+            if not control:
+                _flip(raw, 0x10000 if value[0] == 1 else 0x20000, value[1])
         elif what == "regi" and not control:
             _flip(raw, 0x30000, value[1])
             _flip(raw, 0x40000, value[1])
@@ -292,6 +311,12 @@ def _apply(gate: str, value, control: bool, ctx, rng):
         if what == "header-signature" and not control:
             _flip(raw, 0, value[1])
             _flip(raw, 0x1000, value[1])
+        elif what == "active-header-signature-only":
+            s1, s2 = {1: (9, 4), 2: (4, 9), "tie": (6, 6)}[value[0]]
+            struct.pack_into("<H", raw, 8, s1)
+            struct.pack_into("<H", raw, 0x1000 + 8, s2)
+            if not control:
+                _flip(raw, 0 if value[0] == 1 else 0x1000, value[1])
         elif what == "version" and not control:
             struct.pack_into("<I", raw, 10, value)
             struct.pack_into("<I", raw, 0x1000 + 10, value)
